@@ -294,7 +294,12 @@ class XsdAttribute(XsdComponent, ValidationMixin[Optional[str], DecodedValueType
             return str(value)
 
     def raw_encode(self, obj: Any, validation: str, context: EncodeContext) -> Optional[str]:
-        return self.type.raw_encode(obj, validation, context)
+        text = self.type.raw_encode(obj, validation, context)
+        if self.fixed is not None and text is not None and text != self.fixed and \
+                self.type.text_decode(text) != self.type.text_decode(self.fixed):
+            msg = _("attribute {0!r} has a fixed value {1!r}").format(self.name, self.fixed)
+            context.validation_error(validation, self, msg, obj)
+        return text
 
 
 class Xsd11Attribute(XsdAttribute):
@@ -776,6 +781,11 @@ class XsdAttributeGroup(
                     reason = _("%r attribute not allowed for element") % name
                     context.validation_error(validation, self, reason, obj)
                     continue
+            else:
+                if xsd_attribute.use == 'prohibited' and xsd_attribute.fixed is None and \
+                        (None not in self or not self._attribute_group[None].is_matching(name)):
+                    reason = _("use of attribute %r is prohibited") % name
+                    context.validation_error(validation, self, reason, obj)
 
             item = xsd_attribute.raw_encode(value, validation, context)
             if result is not None and item is not None and not isinstance(item, EmptyType):
